@@ -22,7 +22,8 @@ REQUIRED_COUNTERS = {"plans_with_greenlets": {"quick": 20, "thorough": 200},
                      "extract_until_frame_limits": {"quick": 500, "thorough": 5000},
                      "slices_checked": {"quick": 20000, "thorough": 400000},
                      "calls_from_lookalike_modules": {"quick": 300, "thorough": 3000},
-                     "extractions_from_a_resumed_frame": {"quick": 200, "thorough": 600}}
+                     "extractions_from_a_resumed_frame": {"quick": 200, "thorough": 600},
+                     "uses_of_a_reused_slice_object": {"quick": 300, "thorough": 3000}}
 SHARD_TIMEOUT = {"quick": 400, "thorough": 5400}
 EXHAUSTIVE = {"quick": False, "thorough": False}
 
@@ -59,6 +60,8 @@ def worker(spec):
     state = {}
     import os
     PKGDIR = os.path.dirname(os.path.abspath(stackscope.__file__))   # stackscope's own frames = code from there
+
+    REUSED = {"bare": (StackSlice(), None), "limit1": (StackSlice(limit=1), 1), "limit2": (StackSlice(limit=2), 2)}
 
     def truth_frames(start):
         out = []
@@ -122,8 +125,11 @@ def worker(spec):
                         exp = exp[:lim] if (i is None and o is not None) else exp[-lim:]
                     fo = None if o is None else T[o]
                     fi = None if i is None else T[i]
-                    check(("slice", o, i, lim), "StackSlice",
-                          extract(StackSlice(outer=fo, inner=fi, limit=lim), with_contexts=False), exp)
+                    sl = StackSlice(outer=fo, inner=fi, limit=lim)
+                    check(("slice", o, i, lim), "StackSlice", extract(sl, with_contexts=False), exp)
+                    if sl.outer is not fo or sl.inner is not fi or sl.limit != lim:
+                        res.violation(kind="the StackSlice passed in was modified by the extraction", plan=state["plan"],
+                                      label=repr(("slice", o, i, lim)), now=repr(sl)[:200], interp=interp)
                     if i is None and lim is None:
                         check(("since", o, None, None), "extract_since", extract_since(fo, with_contexts=False), exp)
                     if o is None and i is not None:
@@ -142,6 +148,15 @@ def worker(spec):
                         res.count("extract_until_frame_limits")
                         check(("until-frame", o, i, None), "extract_until",
                               extract_until(T[i], limit=T[o], with_contexts=False), T[o:i + 1])
+        # slice objects made once per process and used again from every other stack (a module-level
+        # WHOLE_STACK = StackSlice() in a logging helper): each use describes the stack of that use
+        for name, (sl, lim) in sorted(REUSED.items()):
+            res.count("uses_of_a_reused_slice_object")
+            check(("reused-" + name, None, None, lim), "StackSlice", extract(sl, with_contexts=False),
+                  T if lim is None else T[-lim:])
+            if sl.outer is not None or sl.inner is not None or sl.limit != lim:
+                res.violation(kind="the StackSlice passed in was modified by the extraction", plan=state["plan"],
+                              label="reused-" + name, now=repr(sl)[:200], interp=interp)
         # the caller may live in a module whose name merely *begins* like stackscope's (a plug-in, a vendored
         # helper): its frames are the caller's, not stackscope's own
         for modname in ("stackscope_addon", "stackscopex.sub", "stackscope._tests.lookalike"):
